@@ -16,7 +16,7 @@
 (* search is linear.  Acceptance is by POSTCONDITION on the diameter; on a  *)
 (* rejection the first unexplained line is printed.                        *)
 (***************************************************************************)
-EXTENDS CompactProto, UnsafeProto, ThriftBinary, TLC, Json, IOUtils
+EXTENDS CompactProto, UnsafeProto, ThriftBinary, ThriftCompact, TLC, Json, IOUtils
 
 Rec == ndJsonDeserialize(IOEnv.VERIF_TRACE)
 
@@ -134,6 +134,23 @@ CompactR(r, e) ==
          [ok |-> q.ok /\ q.kt = e.kt /\ q.vt = e.vt /\ q.cnt = e.cnt /\ 2 * q.cnt <= Avail - q.n, r |-> q.r, n |-> q.n]
     [] e.op \in {"r_list_end", "r_set_end", "r_map_end"} -> RCollEnd(r)
 
+\* --- calls only EMITTED decoders make: the reader's own length methods and skip ------------------------------------
+\* a reader-side length event as the writer-side length event of the same call
+AsLen(e) == [e EXCEPT !.op = "l_" \o SubSeq(e.op, 4, Len(e.op))]
+\* binary family: the reader's length methods are the writer's (stateless)
+BinRL(e) == LenOfOp(AsLen(e), IsLe)
+CompactRL(r, e) ==
+  CASE e.op = "rl_field_begin" -> RLFieldBegin(r, e.t, e.id)
+    [] e.op = "rl_field_end" -> RLFieldEnd(r)
+    [] e.op = "rl_field_stop" -> RLFieldStop(r)
+    [] e.op = "rl_struct_begin" -> RLStructBegin(r)
+    [] e.op = "rl_struct_end" -> RLStructEnd(r)
+    [] e.op = "rl_bool" -> RLBool(r)
+    [] OTHER -> LET q == CompactL(W0, AsLen(e)) IN [ok |-> q.ok, r |-> r, n |-> q.n]    \* stateless lengths
+\* skip(t): consumes exactly the value of wire type t that starts at pos (ideal decoders), reports that number, and
+\* leaves the compact context as it found it -- except that a bool whose value came with the field header is consumed
+SkipEnd(t) == IF P = "compact" THEN CDec(t, Inp, pos) ELSE BinDec(t, Inp, pos, IsLe)
+
 \* unchecked reader cursor
 UnsafeR(c, e, n) ==
   IF e.op = "r_binary"
@@ -184,7 +201,7 @@ TLen ==
           /\ Ev.st = cs /\ cs' = cs              \* a length call never moves the unchecked cursor
 
 TRead ==
-  /\ Ev.op \notin {"reset", "init", "end"} /\ IsR /\ Advance /\ UNCHANGED <<base, lsum, wsum>>
+  /\ Ev.op \notin {"reset", "init", "end", "endr", "r_skip"} /\ IsR /\ Advance /\ UNCHANGED <<base, lsum, wsum>>
   /\ IF P = "compact"
      THEN LET q == CompactR(cs, Ev) IN q.ok /\ q.n = Ev.n /\ q.r = Ev.st /\ cs' = q.r /\ pos' = pos + q.n
      ELSE LET q == BinR(Ev) IN
@@ -194,7 +211,28 @@ TRead ==
                   c.ok /\ c.c = Ev.st /\ cs' = c.c /\ UConsumed(Len(Inp), c.c) = pos + q.n
              ELSE Ev.st = <<>> /\ cs' = cs
 
-TraceNext == i <= Len(Rec) /\ (TReset \/ TInit \/ TWrite \/ TLen \/ TRead \/ TEnd)
+IsRL == SubSeq(Ev.op, 1, 3) = "rl_"
+TReadLen ==
+  /\ IsRL /\ Advance /\ UNCHANGED <<base, pos, lsum, wsum>>
+  /\ IF P = "compact"
+     THEN LET q == CompactRL(cs, Ev) IN q.ok /\ q.n = Ev.ret /\ q.r = Ev.st /\ cs' = q.r
+     ELSE BinRL(Ev) = Ev.ret /\ Ev.st = cs /\ cs' = cs
+
+TSkip ==
+  /\ Ev.op = "r_skip" /\ Advance /\ UNCHANGED <<base, lsum, wsum>>
+  /\ IF P = "compact" /\ Ev.t = T_BOOL /\ cs.pv # <<>>
+     THEN Ev.n = 0 /\ Ev.ret = 0 /\ cs' = [cs EXCEPT !.pv = <<>>, !.pid = <<>>] /\ Ev.st = cs' /\ pos' = pos
+     ELSE LET d == SkipEnd(Ev.t) IN
+          /\ d.ok /\ Ev.n = d.pos - pos /\ Ev.ret = Ev.n /\ pos' = d.pos
+          /\ IF P = "compact" THEN (Ev.st = [cs EXCEPT !.pid = <<>>] \/ Ev.st = cs) /\ cs' = Ev.st
+             ELSE IF P = "unsafe" THEN cs' = Ev.st ELSE Ev.st = cs /\ cs' = cs
+
+\* end of an emitted decode: everything up to the trailer was consumed, a compact reader is back in its initial state
+TEndR == /\ Ev.op = "endr" /\ Advance /\ UNCHANGED <<base, cs, pos, lsum, wsum>>
+         /\ pos = Ev.used
+         /\ (P = "compact" => cs = R0)
+
+TraceNext == i <= Len(Rec) /\ (TReset \/ TInit \/ TWrite \/ TLen \/ TRead \/ TEnd \/ TReadLen \/ TSkip \/ TEndR)
 TraceSpec == TraceInit /\ [][TraceNext]_vars
 
 \* a compact protocol object is back in its initial state whenever a top-level value is complete
